@@ -145,7 +145,11 @@ def correspondence(ctx):
     extra = [(["+", "a0", "+", "*", "a1", "x", "*", "a2", "pow", "x", "2"], "a0 + a1*x + a2*x**2", lambda t, x: t[0] + t[1] * x + t[2] * x ** 2),
              (["+", "a0", "+", "*", "a1", "x", "/", "a2", "x"], "a0 + a1*x + a2/x", lambda t, x: t[0] + t[1] * x + t[2] / x),
              (["+", "a0", "*", "a1", "x"], "a0 + a1*x", lambda t, x: t[0] + t[1] * x),
-             (["*", "a0", "x"], "a0*x", lambda t, x: t[0] * x)]
+             (["*", "a0", "x"], "a0*x", lambda t, x: t[0] * x),
+             # integer constants in the tree (their code length is ln|c|): negative exponents, a factor 3, a zero
+             (["*", "a0", "pow", "x", "-2"], "a0*x**(-2)", lambda t, x: t[0] / x ** 2),
+             (["+", "a0", "*", "a1", "pow", "x", "-3"], "a0 + a1*x**(-3)", lambda t, x: t[0] + t[1] / x ** 3),
+             (["+", "*", "3", "x", "a0"], "3*x + a0", lambda t, x: 3 * x + t[0])]
     for ei, (labels, formula, f) in enumerate(extra):
         for variant in (["significant", "unresolved"] if ctx.quick else ["significant", "unresolved", "significant2"]):
             rng = np.random.default_rng((ctx.seed + 1000 + 31 * ei + len(variant)) % 2 ** 31)
